@@ -163,8 +163,8 @@ def unparser_reads_plan_fields(ctx):
         ctx.lost(rule, 'Unparser::plan_to_sql / Unparser::expr_to_sql_inner')
         return
     n = protocov.check_encoder_reads(ctx, 'LogicalPlan', proot[0], 'datafusion_expr::logical_plan::plan::LogicalPlan', rule=rule, exempt=UNPARSER_EXEMPT,
-                                     follow=UNPARSER_FOLLOW, per_variant=False)
-    n += protocov.check_encoder_reads(ctx, 'Expr', eroot[0], 'datafusion_expr::expr::Expr', rule=rule, exempt=UNPARSER_EXEMPT, follow=UNPARSER_FOLLOW, per_variant=False)
+                                     follow=UNPARSER_FOLLOW, per_variant=False, follow_derived=True)
+    n += protocov.check_encoder_reads(ctx, 'Expr', eroot[0], 'datafusion_expr::expr::Expr', rule=rule, exempt=UNPARSER_EXEMPT, follow=UNPARSER_FOLLOW, per_variant=False, follow_derived=True)
     ctx.floor(rule, 'plan / expression structs the unparser reads', n, 25)
     st = ctx.st
     probe = common.Ctx(ctx.pid, ctx.tier, st, st, {})
